@@ -433,7 +433,7 @@ type c15Src struct {
 }
 
 type c15Op struct {
-	K     string   `json:"k"` // mint dec declax | register remove lookup resume dump
+	K     string   `json:"k"` // mint dec declax | register remove lookup resume decode dump
 	Label int      `json:"label,omitempty"`
 	Role  int      `json:"role,omitempty"`
 	Ks    int      `json:"ks,omitempty"`
@@ -1196,11 +1196,120 @@ func c15RunHub(t *testing.T, u *c15Universe, c *c15Case, st *c15RunStats) (trace
 			} else {
 				emit(fmt.Sprintf("XResume %s %d %s", srcTerm, c15Chk([]byte(s)), a.coq()), obs)
 			}
+		case "decode":
+			// the hub's own decoder of a role (every lookup, the resume branch of hello and the
+			// recipient of a message go through it)
+			if o.Src == nil {
+				continue
+			}
+			s, srcTerm, ok := c15Resolve(o.Src, minted)
+			if !ok {
+				continue
+			}
+			var a c15Answers
+			u.decAnswers(o.Role, k, s, &a)
+			var d *SessionIdData
+			if o.Role == c15Private {
+				d = hub.decodePrivateSessionId(s)
+			} else {
+				d = hub.decodePublicSessionId(s)
+			}
+			obs := "WNoData"
+			if d != nil {
+				obs = "WData " + u.cd(d)
+				st.accepted++
+			} else {
+				st.rejected++
+			}
+			emit(fmt.Sprintf("XDecode %s %s %d %s", c15RoleCoq[o.Role], srcTerm, c15Chk([]byte(s)), a.coq()), obs)
 		case "dump":
 			emit("XDump", c15Dump(u, hub))
 		}
 	}
 	return trace
+}
+
+// Applications of the hub's decoders to the ids handed out so far: under their own role and
+// under the other one (right after the registration, which puts both ids of the session into
+// the caches; later, when they may have been evicted, looked up, or invalidated by a removal),
+// the codec's reversal of an id (how a public id is derived), re-spellings, and texts never
+// minted.  Inserted with a generator of its own so that the rest of the case stays what it was.
+func c15AddDecodes(r *vrng, ops []c15Op) []c15Op {
+	var out []c15Op
+	var labels []int
+	dec := func(base, which, role int, m c15Mut) {
+		out = append(out, c15Op{K: "decode", Role: role, Src: &c15Src{Base: base, Which: which, Mut: m}})
+	}
+	for _, o := range ops {
+		out = append(out, o)
+		if o.K == "register" {
+			labels = append(labels, o.Label)
+			if r.chance(60) {
+				which := r.intn(2)
+				dec(o.Label, which, 1-which, c15Mut{K: "id"})
+			}
+		}
+		if len(labels) == 0 || !r.chance(35) {
+			continue
+		}
+		for n := 1 + r.intn(2); n > 0; n-- {
+			base, which := pick(r, labels), r.intn(2)
+			role := which
+			if r.chance(50) {
+				role = 1 - which
+			}
+			switch x := r.intn(100); {
+			case x < 60:
+				dec(base, which, role, c15Mut{K: "id"})
+			case x < 72:
+				dec(base, which, role, c15Mut{K: "reverse"})
+			case x < 80:
+				dec(base, which, role, c15Mut{K: "append", Hex: pick(r, []string{"0a", "0d0a", "41"})})
+			case x < 88:
+				dec(base, which, role, c15Mut{K: "flip", Pos: r.intn(60), Bit: r.intn(7)})
+			case x < 94:
+				dec(base, which, role, c15Mut{K: "respell", N: 1 + r.intn(15)})
+			default:
+				lit := pick(r, []string{"", "x", "AAAA", "MTIzfHh8eQ==", "private-session", "|"})
+				out = append(out, c15Op{K: "decode", Role: role, Src: &c15Src{Lit: &lit}})
+			}
+		}
+	}
+	return out
+}
+
+// roles at the hub, directed: both ids of a session under both roles right after the
+// registration, again after each was decoded under its own role, after another registration
+// (small caches: the entries are evicted), and after the session was removed
+func c15DirectedHubCases(id int) []*c15Case {
+	var cs []*c15Case
+	for _, shape := range [][2]int{{1, 0}, {1, 1}, {1, 2}, {2, 2}, {3, 6}} {
+		c := &c15Case{Id: id, Mode: 2, NCaches: shape[0], Size: shape[1], Note: "roles at the hub's decoders"}
+		id++
+		all := func(label int) {
+			for _, p := range [][2]int{{c15Public, c15Private}, {c15Private, c15Public}, {c15Private, c15Private}, {c15Public, c15Public},
+				{c15Public, c15Private}, {c15Private, c15Public}} {
+				c.Ops = append(c.Ops, c15Op{K: "decode", Role: p[1], Src: &c15Src{Base: label, Which: p[0], Mut: c15Mut{K: "id"}}})
+			}
+		}
+		c.Ops = append(c.Ops, c15Op{K: "register", Label: 1})
+		all(1)
+		c.Ops = append(c.Ops, c15Op{K: "dump"}, c15Op{K: "register", Label: 2})
+		all(2)
+		all(1)
+		c.Ops = append(c.Ops,
+			c15Op{K: "lookup", Role: c15Private, Src: &c15Src{Base: 1, Which: c15Public, Mut: c15Mut{K: "id"}}},
+			c15Op{K: "lookup", Role: c15Public, Src: &c15Src{Base: 2, Which: c15Private, Mut: c15Mut{K: "id"}}},
+			c15Op{K: "resume", Role: c15Private, Src: &c15Src{Base: 2, Which: c15Public, Mut: c15Mut{K: "id"}}},
+			c15Op{K: "decode", Role: c15Public, Src: &c15Src{Base: 1, Which: c15Private, Mut: c15Mut{K: "reverse"}}},
+			c15Op{K: "decode", Role: c15Private, Src: &c15Src{Base: 1, Which: c15Public, Mut: c15Mut{K: "reverse"}}},
+			c15Op{K: "dump"}, c15Op{K: "remove", Label: 1})
+		all(1)
+		all(2)
+		c.Ops = append(c.Ops, c15Op{K: "dump"})
+		cs = append(cs, c)
+	}
+	return cs
 }
 
 func c15GenHubCase(r *vrng, id int) *c15Case {
@@ -1261,6 +1370,7 @@ func c15GenHubCase(r *vrng, id int) *c15Case {
 			c.Ops = append(c.Ops, c15Op{K: kind, Role: role, Src: &c15Src{Base: base, Which: which, Mut: m}})
 		}
 	}
+	c.Ops = c15AddDecodes(newVrng(int64(r.next()>>1), 1500+uint64(id)), c.Ops)
 	c.Ops = append(c.Ops, c15Op{K: "dump"})
 	return c
 }
@@ -1431,6 +1541,7 @@ func TestVerifC15(t *testing.T) {
 			cases = append(cases, c15GenHubCase(newVrng(env.seed, uint64(id)), id))
 			id++
 		}
+		cases = append(cases, c15DirectedHubCases(8000000)...)
 		cases = append(cases, c15WitnessCases(t, u, newVrng(env.seed, 99991), id)...)
 	}
 	st := &c15RunStats{errs: map[string]int{}}
@@ -1478,6 +1589,6 @@ func TestVerifC15(t *testing.T) {
 	sink.stats.Notes = append(sink.stats.Notes,
 		"codec cases: one data value minted as private and public id under key set 0 and under another key set; every single-bit flip of the first/last bytes and of random positions, truncations, extensions, CR/LF and other bytes inserted, every trailing-bit re-spelling, standard alphabet, no padding, re-encoding, reversal, other role, other keys, twin key set",
 		"craft cases: strings built with the real keys (time stamp strings, value parts, MAC variants) to reach every check of the decoder; length cases around 4096 characters",
-		"hub cases: real Hub (CreateHubForTest) with small decode caches; register (hello), remove (bye), GetSessionByResumeId / GetSessionByPublicId, hello with resume id, cache dumps")
+		"hub cases: real Hub (CreateHubForTest) with small decode caches; register (hello), remove (bye), GetSessionByResumeId / GetSessionByPublicId, hello with resume id, the hub's decoders of both roles applied to the ids handed out (own role, other role, reversal, re-spellings) and to texts never minted, cache dumps")
 	sink.close("seeded cases on the real SessionIdCodec / Hub; non-trivial = an id was minted, at least one string accepted and one rejected; distinct = distinct observation sequences")
 }
